@@ -23,7 +23,7 @@ KEEPING = frozenset(('lower', 'upper', 'capitalize', 'spacify', 'thousands_comma
 PRE, POST = 'pre~', '~post'          # literal text around the insertion (join path)
 
 PLAIN = 'abcdef'
-RICH = ('aB', '_', '1234567', ' ', '%3C', '+', "'", '\n', 'Zq"')
+RICH = ('aB', '_', '1234567', '.5', ' ', '%3C', '+', "'", '\n', 'Zq"')     # '.5': a '.' before the mark (thousands_commas splits there)
 
 
 def mods_of(mask):
@@ -499,9 +499,37 @@ def evaluate(ctx, mon, case, cache=None):
         ctx.table('raises', '%s in %s [fmt=%s cfmt=%s via=%s url=%s]'
                   % (type(e).__name__, where, c['fmt'], c['cfmt'], c['via'], c['url']))
         _check_render_exit(ctx, mon, c, src, None)
+        _history(ctx, mon, c, src, tmpl, T, ('raise', None))
         return 'raise'
     status = judge(ctx, mon, c, src, out)
+    _history(ctx, mon, c, src, tmpl, T, ('ok', out))
     return status
+
+
+def _history(ctx, mon, c, src, tmpl, T, first):
+    """The same template is rendered with the *trusted* text equal to the value (result discarded) and
+    once more with the marked value.  A result cached under the value's text (TaintedString hashes and
+    compares like its text) would now be served to the marked value; the re-render is judged on its
+    own whenever it differs from the first render (which may have raised)."""
+    try:
+        call_template(tmpl, c, str)
+        ctx.count('history: trusted-twin renders')
+    except Exception:
+        ctx.count('history: trusted-twin renders that raised (ignored)')
+    mon.reset()
+    try:
+        out2 = call_template(tmpl, c, T)
+    except Exception:
+        ctx.count('history: marked re-render raised')
+        _check_render_exit(ctx, mon, c, src, None)
+        return
+    ctx.count('history: marked re-renders after the trusted twin')
+    if first[0] == 'ok' and type(out2) is type(first[1]) and out2 == first[1]:
+        return
+    ctx.count('history: re-render differs from the first render (judged on its own)')
+    c2 = dict(c)
+    c2['after_trusted_twin'] = True
+    judge(ctx, mon, c2, src, out2)
 
 
 def _check_render_exit(ctx, mon, c, src, out):
